@@ -22,7 +22,8 @@ TRUSTED_BASE = [
     "Lean 4.33.0 kernel; axioms ⊆ {propext, Classical.choice, Quot.sound}",
     "hand-written names-level model lean/P2P/Model/Atoms.lean of residue.py add/remove/rename and of hydrogens/structures.py Flip, Alcoholic, Water and hydrogens/__init__.py cleanup, tied to the real objects by replaying every logged method call",
     "geometry enters the model only as logged outcomes (return values, the oxygen's bond count); the theorems quantify over all outcomes",
-    "Carboxylic is modelled for ASH and GLH (lean/P2P/Model/Carboxylic.lean, trace-replayed); the neutral C-terminus variant (CTR), patch application and the composition of the pipeline stages are NOT modelled: they are covered by the final-state oracle on the runs made (partial)",
+    "Carboxylic is modelled for ASH and GLH (lean/P2P/Model/Carboxylic.lean, trace-replayed); the neutral C-terminus variant (CTR) is NOT modelled: covered by the final-state oracle on the runs made (partial)",
+    "the composition apply_patch* ; repair_heavy ; (CYX / pKa patches / remove_hydrogens)* ; add_hydrogens is modelled per residue (lean/P2P/Model/Stages.lean over Topology.applyPatch and the generated topology) and replayed on its own state against every residue of every run, with a frame check that nothing else changes a residue's atoms between those stages; which residue gets which patch (set_termini, apply_pka_values, update_ss_bridges) is modelled under C02 / C06 / C13",
     "no nucleic-acid structure is available offline: the 5'-phosphate removal is not exercised",
 ]
 ASSUMPTIONS = ["residues with a reference definition; duplicate-free atom names on input"]
@@ -144,7 +145,9 @@ class OptMonitor:
             def wrapper(self_, *a, **k):
                 from pdb2pqr import aa, na
 
-                before = [(r, names(r), list(r.reference.map.keys()), bool(getattr(r, "ss_bonded", 0)) and isinstance(r, aa.CYS)) for r in self_.residues if isinstance(r, (aa.Amino, na.Nucleic)) and getattr(r, "reference", None) is not None]
+                mon.seq += 1
+                seq = mon.seq
+                before = [(r, names(r), list(r.reference.map.keys()), bool(getattr(r, "ss_bonded", 0)) and isinstance(r, aa.CYS), r.name) for r in self_.residues if isinstance(r, (aa.Amino, na.Nucleic)) and getattr(r, "reference", None) is not None]
                 missing_total = self_.num_missing_heavy if mname == "repair_heavy" else None
                 raised = None
                 try:
@@ -153,16 +156,39 @@ class OptMonitor:
                     raised = type(e).__name__
                     raise
                 finally:
-                    for r, b, refn, ssb in before:
-                        store.append({"res": r, "before": b, "ref": refn, "after": names(r), "ss": ssb, "raised": raised, "missing_total": missing_total, "hlist": a[0] if a else k.get("hlist")})
+                    for r, b, refn, ssb, rn in before:
+                        store.append({"res": r, "before": b, "ref": refn, "after": names(r), "ss": ssb, "raised": raised, "missing_total": missing_total, "hlist": a[0] if a else k.get("hlist"), "seq": seq, "stage": mname, "ref_after": list(r.reference.map.keys()), "resname": rn})
 
             setattr(biomolecule.Biomolecule, mname, wrapper)
             mon._undo.append(lambda: setattr(biomolecule.Biomolecule, mname, orig))
 
         self.repairs = []
         self.addhs = []
+        self.strips = []
+        self.patches = []
+        self.seq = 0
         wrap_bio("repair_heavy", self.repairs)
         wrap_bio("add_hydrogens", self.addhs)
+        wrap_bio("remove_hydrogens", self.strips)
+
+        orig_patch = biomolecule.Biomolecule.apply_patch
+
+        def apply_patch(self_, patchname, res):
+            mon.seq += 1
+            ref = getattr(res, "reference", None)
+            rec = {"res": res, "stage": "apply_patch", "patch": patchname, "seq": mon.seq, "before": names(res), "ref": list(ref.map.keys()) if ref is not None else None, "resname": res.name, "raised": None}
+            try:
+                return orig_patch(self_, patchname, res)
+            except Exception as e:  # noqa: BLE001
+                rec["raised"] = type(e).__name__
+                raise
+            finally:
+                rec["after"] = names(res)
+                rec["ref_after"] = list(res.reference.map.keys()) if getattr(res, "reference", None) is not None else None
+                mon.patches.append(rec)
+
+        biomolecule.Biomolecule.apply_patch = apply_patch
+        self._undo.append(lambda: setattr(biomolecule.Biomolecule, "apply_patch", orig_patch))
 
         orig_remove = residue.Residue.remove_atom
 
@@ -203,8 +229,101 @@ def b01(x):
     return "1" if x else "0"
 
 
+LATE_PATCHES = ("CYX", "CYM", "ASH", "GLH", "LYN", "TYM", "AR0", "HID", "HIE", "HIP", "HSD", "HSE", "HSP")
+
+
+def stages_tie(ctx: Ctx, drv: Driver, m: OptMonitor):
+    """composition of the atom-set stages, residue by residue (Model/Stages.lean, theorems stages_*): the model
+    is started from the residue's names and pristine reference at its first logged stage and run through the whole
+    logged sequence on its OWN state; after every stage its names (as a multiset) and its reference's names must
+    be those of the real residue. Between two logged stages the real residue must not have changed (frame)."""
+    ev = {}
+    for rec in m.patches + m.repairs + m.strips + m.addhs:
+        ev.setdefault(id(rec["res"]), []).append(rec)
+    reqs, metas = [], []
+    for evs in ev.values():
+        evs.sort(key=lambda r: r["seq"])
+        first = evs[0]
+        res = first["res"]
+        if first["ref"] is None:
+            continue
+        # the definition the residue was created from is looked up under the residue name of the input
+        refname = first.get("resname")
+        toks, used = [], []
+        seen_repair = False
+        prev_after = None
+        ok = True
+        for rec in evs:
+            if rec.get("raised"):
+                break
+            if prev_after is not None and rec["before"] != prev_after:
+                ctx.disagree("residue atoms change between two modelled stages (frame)", {"residue": str(res), "next_stage": rec["stage"]}, prev_after, rec["before"])
+                ok = False
+                break
+            prev_after = rec["after"]
+            st = rec["stage"]
+            if st == "apply_patch":
+                if seen_repair and rec["patch"] not in LATE_PATCHES:
+                    ctx.disagree("a patch outside the modelled late set is applied after repair_heavy", {"residue": str(res)}, list(LATE_PATCHES), rec["patch"])
+                ctx.count("stage-patches", ("late:" if seen_repair else "early:") + rec["patch"])
+                toks.append("P" + hexs(rec["patch"]))
+            elif st == "repair_heavy":
+                seen_repair = True
+                if not rec["missing_total"]:
+                    if rec["before"] != rec["after"]:
+                        ok = False  # reported by trace_tie
+                        break
+                    continue  # returns at once: no stage
+                toks.append("R")
+            elif st == "remove_hydrogens":
+                toks.append("S")
+            elif st == "add_hydrogens":
+                if rec["hlist"] is not None:
+                    break
+                toks.append("A1" if rec["ss"] else "A0")
+            used.append(rec)
+        if not ok or not toks or refname is None:
+            continue
+        reqs.append(f"stages.run\t{hexs(refname)}\t{encn(first['before'])}\t{';'.join(toks)}")
+        metas.append((res, refname, first, used, toks))
+    for (res, refname, first, used, toks), a in zip(metas, drv.ask(reqs)):
+        ctx.evaluations += 1
+        if a == "unknown-residue":
+            ctx.count("stage-sequences", "reference not in the generated topology")
+            continue
+        if a.startswith("unknown-stage"):
+            ctx.disagree("stage sequence uses a patch the generated topology does not have", {"residue": str(res)}, a, toks)
+            continue
+        ctx.count("stage-sequences", "replayed")
+        ctx.count("stage-sequence-shape", " ".join(t[0] for t in toks))
+        body, _, rep = a.partition("#")
+        states = body.split(";") if body else []
+        bad = False
+        for rec, stt in zip(used, states):
+            nm_s, _, ref_s = stt.partition("|")
+            got, gref = decn(nm_s), decn(ref_s)
+            if sorted(gref) != sorted(rec["ref_after"]):
+                ctx.disagree(f"stage composition: reference after {rec['stage']} {rec.get('patch', '')}", {"residue": str(res), "reference": refname, "start": first["before"], "stages": toks}, gref, rec["ref_after"])
+                bad = True
+                break
+            if sorted(got) != sorted(rec["after"]):
+                lost = [n for n in got if n not in rec["after"]]
+                if rec["stage"] == "add_hydrogens" and lost and all(n.startswith("H") for n in lost) and not [n for n in rec["after"] if n not in got]:
+                    ctx.count("add_hydrogens-could-not-place", len(lost))
+                else:
+                    ctx.disagree(f"stage composition: names after {rec['stage']} {rec.get('patch', '')}", {"residue": str(res), "reference": refname, "start": first["before"], "stages": toks}, got, rec["after"])
+                bad = True
+                break
+        if not bad:
+            reported = " ".join(m.warnings)
+            for n in decn(rep):
+                if f"Extra atom {n} in" not in reported:
+                    ctx.disagree("stage composition: deletion without report", {"residue": str(res)}, f"report for {n}", "none logged")
+
+
 def trace_tie(ctx: Ctx, drv: Driver, m: OptMonitor):
     """replay every logged call in the model"""
+    stages_tie(ctx, drv, m)
     reqs = []
     recs = []
     for r in m.records:
@@ -656,6 +775,19 @@ def run(ctx: Ctx):
         mode = [[], ["--noopt"], ["--nodebump", "--noopt"], ["--nodebump"]][ci % 4]
         opts = ["--ff=" + rng.choice(["AMBER", "PARSE", "CHARMM", "SWANSON"]), "--titration-state-method=propka", f"--with-ph={rng.choice([0.5, 1.0, 2.0, 3.5])}"] + mode
         check_case(ctx, drv, G.to_pdb([res], waters), opts, {"kind": "carboxyl-protonated-by-pH", "mode": " ".join(mode) or "default", "target": must, "pos": "?"}, seen_sig)
+    # fully hydrogenated inputs re-run in a state whose patch REMOVES hydrogens the input carries
+    # (neutral N-terminus: H3; the patches' remove lists act on the residue, not only on the reference)
+    for ci in range(ctx.scale(6, 120)):
+        _f, res = G.window(rng, rng.choice([2, 3, 5]))
+        G.set_chain(res, "A", 1)
+        pre = G.run_pipeline(G.to_pdb([res]), ["--ff=AMBER", "--pdb-output=@DIR@/out.pdb"])
+        hyd = pre.extra_files.get("out.pdb") if pre.status == "ok" else None
+        if not hyd:
+            ctx.count("hydrogenated-rerun", "pre-run failed")
+            continue
+        term = [["--neutraln"], ["--neutralc"], ["--neutraln", "--neutralc"]][ci % 3]
+        mode = [[], ["--noopt"], ["--nodebump"]][(ci // 3) % 3]
+        check_case(ctx, drv, hyd, ["--ff=PARSE"] + term + mode, {"kind": "hydrogenated-rerun", "mode": " ".join(term + mode), "target": res[0][0].resn, "pos": "N"}, seen_sig)
     n = ctx.scale(70, 2500)
     for ci in range(n):
         force = G.AA3[ci % len(G.AA3)] if ci % 2 == 0 else None
